@@ -51,7 +51,7 @@ static _Atomic int ng;
 
 static struct {
 	uint64_t cases, children, spawned, forked_with_interest, strangers, statuses_reaped, statuses_delivered, stops, conts, exits, kills,
-		 kill_helper_calls, kill_helper_dead, unreg_in_handler, immediate_exits, stranger_deaths, zombie_checks, unreg_other, batches, missed_statuses;
+		 kill_helper_calls, kill_helper_dead, unreg_in_handler, immediate_exits, stranger_deaths, zombie_checks, unreg_other, batches, missed_statuses, interests_reused;
 } S;
 static _Atomic long c_reaped, c_delivered, c_killcalls, c_killdead, c_stranger_deaths;
 
@@ -206,6 +206,7 @@ static void child_script(struct child *c)
 }
 
 static void spawn_fn(void *cookie) { child_script(cookie); }
+static struct iv_wait_interest *recycled[MAXLOOP];	/* per loop: an interest object to be used again without INIT */
 
 /* ---- interests -------------------------------------------------------------------- */
 static void wait_cb(void *cookie, int status, const struct rusage *ru)
@@ -245,8 +246,12 @@ static void wait_cb(void *cookie, int status, const struct rusage *ru)
 		c->unreg_seq = seq_next();
 		iv_wait_interest_unregister(c->wi);
 		c->registered = 0;
-		memset(c->wi, 0xDD, sizeof(*c->wi));
-		free(c->wi);
+		if (dead && recycled[lt->idx] == NULL && !mt_phase && rng_pct(&lt->rng, 35)) {
+			recycled[lt->idx] = c->wi;	/* kept untouched for the next child of this loop */
+		} else {
+			memset(c->wi, 0xDD, sizeof(*c->wi));
+			free(c->wi);
+		}
 		c->wi = NULL;
 		return;
 	}
@@ -344,9 +349,16 @@ static struct child *make_child(struct loopthr *lt, int kind)
 	c->immediate = (kind == CK_SPAWN) && rng_pct(&lt->rng, 30);
 	c->unreg_at = (kind != CK_ANCHOR && rng_pct(&lt->rng, 25)) ? 1 + (int)rng_n(&lt->rng, 3) : 0;
 	if (kind != CK_STRANGER) {
-		c->wi = malloc(sizeof(struct iv_wait_interest));
-		memset(c->wi, 0xA5, sizeof(*c->wi));
-		IV_WAIT_INTEREST_INIT(c->wi);
+		if (recycled[lt->idx] != NULL) {
+			/* an interest object whose previous child died and which was unregistered is used again as it is (no second INIT) */
+			c->wi = recycled[lt->idx];
+			recycled[lt->idx] = NULL;
+			S.interests_reused++;
+		} else {
+			c->wi = malloc(sizeof(struct iv_wait_interest));
+			memset(c->wi, 0xA5, sizeof(*c->wi));
+			IV_WAIT_INTEREST_INIT(c->wi);
+		}
 		c->wi->cookie = c;
 		c->wi->handler = wait_cb;
 	}
@@ -663,6 +675,10 @@ static void run_case(long id, uint64_t seed)
 	nl = 1 + rng_n(&r, 3);
 	mt_start_loops(nl, cs);
 	mt_join_loops();
+	for (i = 0; i < MAXLOOP; i++) {
+		free(recycled[i]);
+		recycled[i] = NULL;
+	}
 
 	/* nothing may be left behind: no zombie, no living child */
 	for (i = 0; i < nch; i++) {
@@ -709,11 +725,11 @@ int main(int argc, char **argv)
 	for (i = first; i < first + n; i++)
 		run_case(i, seed);
 	mon_printf("STAT method=%s cases=%llu children=%llu spawned=%llu forked_with_interest=%llu strangers=%llu stranger_deaths_reaped=%ld statuses_reaped=%ld "
-		   "statuses_delivered=%ld stops=%llu continues=%llu exits=%llu kills=%llu immediate_exits=%llu unregistered_in_handler_before_death=%llu "
+		   "statuses_delivered=%ld stops=%llu continues=%llu exits=%llu kills=%llu immediate_exits=%llu interest_objects_reused_without_init=%llu unregistered_in_handler_before_death=%llu "
 		   "unregistered_by_another_handler=%llu kill_helper_calls=%ld kill_helper_on_reaped_dead=%ld zombie_checks=%llu shim_quiescences=%llu sig_deliveries=%llu violations=%d\n",
 		   g_method, (unsigned long long)S.cases, (unsigned long long)S.children, (unsigned long long)S.spawned, (unsigned long long)S.forked_with_interest,
 		   (unsigned long long)S.strangers, (long)c_stranger_deaths, (long)c_reaped, (long)c_delivered, (unsigned long long)S.stops,
-		   (unsigned long long)S.conts, (unsigned long long)S.exits, (unsigned long long)S.kills, (unsigned long long)S.immediate_exits,
+		   (unsigned long long)S.conts, (unsigned long long)S.exits, (unsigned long long)S.kills, (unsigned long long)S.immediate_exits, (unsigned long long)S.interests_reused,
 		   (unsigned long long)S.unreg_in_handler, (unsigned long long)S.unreg_other, (long)c_killcalls, (long)c_killdead, (unsigned long long)S.zombie_checks,
 		   (unsigned long long)vt_stats.quiescences, (unsigned long long)vt_stats.sig_deliveries, mon_viol_total);
 	mon_printf("DONE\n");
